@@ -48,7 +48,7 @@ def plan(tier, seed):
 
 
 def mandatory(tier):
-    return [f"mode/{m}" for m in FD_MODES + ["bspline"]] + [f"spacing/{s}" for s in SPACING_FORMS] + ["D/2", "D/3", "subset", "quadratic", "bracket", "curl", "curl/divergence_free_flow"]
+    return [f"mode/{m}" for m in FD_MODES + ["bspline"]] + [f"spacing/{s}" for s in SPACING_FORMS] + ["D/2", "D/3", "subset", "quadratic", "bracket", "curl", "curl/divergence_free_flow", "curl/divergence_free_flow/scalar_fields", "curl/module"]
 
 
 def interior(a, m=2):
@@ -125,6 +125,11 @@ def run_item(ctx, item):
                 ctx.close("jacobian_det_of_affine_field", det, np.broadcast_to(ref, det.shape), tol * scale ** (D - 1) * D, key=f"jacobian_det/{mode}", add_identity=add_id, **info)
             div = interior(U.divergence(u, mode=mode, spacing=arg).numpy(), m)
             ctx.close("divergence_of_affine_field", div, np.broadcast_to(np.trace(A, axis1=1, axis2=2).reshape((N, 1) + (1,) * D), div.shape), tol * D, key=f"divergence/{mode}", **info)
+            # the loss wrapper differentiates with the same options: 0.5 div^2 at every point
+            from deepali.losses import functional as L
+
+            dl = L.divergence_loss(u, mode=mode, spacing=arg, reduction="none")
+            ctx.close("divergence_loss_is_half_squared_divergence_with_same_options", dl, 0.5 * U.divergence(u, mode=mode, spacing=arg).numpy() ** 2, 1e-6 * (1 + float(dl.abs().max())), key=f"divergence/{mode}", via="losses.divergence_loss", **info)
             ctx.bucket("curl")
             crl = interior(U.curl(u, mode=mode, spacing=arg).numpy(), m)
             if D == 2:
@@ -132,6 +137,26 @@ def run_item(ctx, item):
             else:
                 ref = np.stack([A[:, 2, 1] - A[:, 1, 2], A[:, 0, 2] - A[:, 2, 0], A[:, 1, 0] - A[:, 0, 1]], axis=1).reshape((N, 3, 1, 1, 1))
             ctx.close("curl_of_affine_field", crl, np.broadcast_to(ref, crl.shape), tol * 2, key=f"curl/{mode}", **info)
+            # the layer wrapper computes the same curl, whatever it was applied to before (one instance, two input sizes)
+            from deepali.modules.flow import Curl
+
+            ctx.bucket("curl/module")
+            layer, layer0 = Curl(mode=mode, spacing=arg), Curl(mode=mode)
+            small = u[(slice(None), slice(None)) + (slice(0, -1),) * D]
+            layer(small)
+            layer0(small)
+            ctx.close("curl_layer_of_affine_field", interior(layer(u).numpy(), m), np.broadcast_to(ref, crl.shape), tol * 2, key=f"curl/{mode}", via="modules.Curl", **info)
+            ctx.close("curl_layer_without_spacing_equals_function_on_every_input", layer0(u), U.curl(u, mode=mode), 0.0, key=f"curl/{mode}", via="modules.Curl()", **info)
+            ctx.true("curl_layer_keeps_its_options", layer0.spacing is None and layer0.mode == mode, key=f"curl/{mode}", via="modules.Curl()", got=repr(layer0.spacing))
+            # divergence-free fields built from linear scalar fields: rotated gradient (2-D), cross product of the two gradients (3-D)
+            ctx.bucket("curl/divergence_free_flow/scalar_fields")
+            if D == 2:
+                dfs = interior(U.divergence_free_flow(u[:, :1], mode=mode, spacing=arg).numpy(), m)
+                rs = np.stack([-A[:, 0, 1], A[:, 0, 0]], axis=1).reshape((N, 2, 1, 1))
+            else:
+                dfs = interior(U.divergence_free_flow(u[:, :2], mode=mode, spacing=arg).numpy(), m)
+                rs = np.cross(A[:, 0, :], A[:, 1, :]).reshape((N, 3, 1, 1, 1))
+            ctx.close("divergence_free_flow_of_linear_scalar_fields", dfs, np.broadcast_to(rs, dfs.shape), tol * 2 * scale, key=f"curl/{mode}", via="divergence_free_flow(scalar fields)", **info)
             if D == 3:
                 # documented: for a 3-channel 3-D input divergence_free_flow() is the curl of the field (same options)
                 dff = interior(U.divergence_free_flow(u, mode=mode, spacing=arg).numpy(), m)
